@@ -110,9 +110,10 @@ VelocityOk(r, d) ==
                => \A x \in vel[j], y \in vel[k] : y > x)                         \* louder never quieter
 \* the value of a tempo / meter / key setting in force at instance i: the last demand of that type at or before i
 InForceAt(dem, ty, i) == LET S == {x \in dem : x[2] = ty /\ x[1] <= i} IN (CHOOSE x \in S : \A y \in S : y[1] <= x[1])[3]
-\* a time signature travels as two bytes (numerator, exponent of the denominator): a numerator or denominator above 255
-\* has no event that carries "the written value", so such a piece can only be refused (written wrong is a violation)
-MeterFits(d) == \A i \in 1..Len(d) : d[i].meter = <<>> \/ (d[i].meter[1] <= 255 /\ d[i].meter[2] <= 255)
+\* a time signature travels as two bytes (numerator, exponent of the denominator): a numerator above 255, or a denominator
+\* that is not a power of two (or is above 128), has no event that carries "the written value", so such a piece can only
+\* be refused (written with another value is a violation)
+MeterFits(d) == \A i \in 1..Len(d) : d[i].meter = <<>> \/ (d[i].meter[1] <= 255 /\ d[i].meter[2] \in {1, 2, 4, 8, 16, 32, 64, 128})
 C07Written(r) ==
             LET d == Eff(r.doc, r.flags)  ctl == SelectSeq2(r.ev, IsControl)  dem == Demands(d)
                 textual == {mTEXT, mLYRIC, mMARKER} IN
